@@ -144,7 +144,7 @@ def judgeEnc (define : Bool) (g : GraphVal) (topo : Except Nat (List Nat)) (r : 
             | .ok ord => match aggOf g (ord.filter (isImportNode g)) with
               | some agg =>
                 if aggOkCheck g agg then "1"
-                else if !(agg.imports.all fun e => decide (e.2.kind = .instance → (agg.fix e.2).iface = none ∨ (agg.fix e.2).iface = some e.1))
+                else if !((fixedImports agg).all (ifaceEntryOk (fixedImports agg)))
                 then "0:iface-named" else "0:other"
               | none => "0:no-agg"
             | _ => "0:no-order"
